@@ -1103,4 +1103,34 @@ theorem dialTail_ok {g : DialCfg} {cipher : Nat} {retried : Bool} {conn : Conn} 
   rw [Conn.readN_encrypted h2, readHandshake1_encrypted h1]
 
 
+/-! ### definitions used in the statements of `Props/C12` -/
+
+/-- The receiver's getSKey looks keys up by their hash (as `torrent.getSKey` does). -/
+def LooksUpByHash (c : Crypto) (i : InCfg) : Prop := ∀ h k, i.getSKey h = some k → c.hashSKey k = h
+
+/-- Under the lookup contract and an injective `HashSKey`, the receiver either does not find the
+initiator's key or finds exactly it. -/
+theorem getSKey_cases (c : Crypto) (o : OutCfg) (i : InCfg) (hl : LooksUpByHash c i)
+    (hinj : ∀ a b, c.hashSKey a = c.hashSKey b → a = b) :
+    i.getSKey (c.hashSKey o.sKey) = none ∨ i.getSKey (c.hashSKey o.sKey) = some o.sKey := by
+  cases h : i.getSKey (c.hashSKey o.sKey) with
+  | none => exact Or.inl rfl
+  | some k => exact Or.inr (by rw [hinj k o.sKey (hl _ _ h)])
+
+
+/-- A toy instance of the cryptographic parameters for the non-vacuity examples. -/
+def toyC : Crypto where
+  pub x := List.replicate 96 (x.headD 0)
+  dh y x := [y.headD 0 + x.headD 0]
+  req1 _ := List.replicate 20 9
+  req3 _ := List.replicate 20 5
+  hashSKey k := List.replicate 20 (k.headD 0)
+  ks a _ _ i := if a then i % 7 + 1 else i % 5 + 2
+
+def toyO : OutCfg := { x := [3], sKey := [42], provide := 3, ia := [1, 2, 3], padA := [8, 8], padCLen := 1 }
+def toyI : InCfg := { x := [4], padB := [6], padDLen := 2,
+                      getSKey := fun h => if h = List.replicate 20 42 then some [42] else none,
+                      select := acceptSelect false }
+
+
 end Rain.MSE
